@@ -71,19 +71,20 @@ type ruleSpec struct {
 }
 
 type instOpts struct {
-	listeners  []string            // udp tcp gnet tls http https fasthttp quic
-	upstreams  map[string]string   // tag -> scheme ("udp", "tcp", "tcp+pipeline")
-	sets       map[string][]string // tag -> lines ("domain:z1.test")
-	rules      []ruleSpec
-	cacheMem   int
-	maxTTL     int
-	ecs        bool
-	ipMarker   []string // lines "start,end,label"
-	clients    []string // addresses the scenario's clients use (C15 live part)
-	limiter    router.LimiterConfig
-	maxConc    int32
-	xffHeader  string
-	logQueries bool
+	listeners   []string            // udp tcp gnet tls http https fasthttp quic
+	upstreams   map[string]string   // tag -> scheme ("udp", "tcp", "tcp+pipeline")
+	sets        map[string][]string // tag -> lines ("domain:z1.test")
+	rules       []ruleSpec
+	cacheMem    int
+	maxTTL      int
+	ecs         bool
+	ipMarker    []string // lines "start,end,label"
+	clients     []string // addresses the scenario's clients use (C15 live part)
+	limiter     router.LimiterConfig
+	maxConc     int32
+	xffHeader   string
+	logQueries  bool
+	idleTimeout int // seconds, stream listeners
 }
 
 // newInst builds a configuration, starts fake upstreams and the real router in-process.
@@ -135,9 +136,14 @@ func newInstDup(name string, o instOpts, dupUp, dupSet bool) (*inst, error) {
 	pickPorts := func() {
 		cfg.Servers = nil
 		for _, k := range o.listeners {
-			p := freePort(k == "udp" || k == "quic")
+			p := freePort(k == "udp" || k == "quic" || k == "udpmr")
 			in.ports[k] = p
 			sc := router.ServerConfig{Tag: k, Protocol: k, Listen: fmt.Sprintf("127.0.0.1:%d", p)}
+			if k == "udpmr" { // wildcard UDP listener that answers from the address the query was sent to
+				sc.Protocol, sc.Listen = "udp", fmt.Sprintf("0.0.0.0:%d", p)
+				sc.Udp.MultiRoutes = true
+			}
+			sc.IdleTimeout = o.idleTimeout
 			sc.Tls.DebugUseTempCert = true
 			sc.Tcp.MaxConcurrentQueries = o.maxConc
 			sc.Http.ClientAddrHeader = o.xffHeader
@@ -443,6 +449,86 @@ func (in *inst) send(lst, src string, q qspec, wait time.Duration, hdr map[strin
 	return r, status
 }
 
+// sendBatch pipelines the queries on one stream connection (tcp, gnet, tls): all frames go out in ONE write,
+// so that the listener finds several complete frames in one read event. Responses are matched to queries by
+// ID (the caller gives distinct IDs); a query without a response within `wait` is logged as cl.none.
+func (in *inst) sendBatch(lst, src string, qs []qspec, wait time.Duration) {
+	qns := make([]int, len(qs))
+	var stream []byte
+	byID := map[uint16]int{}
+	for i, q := range qs {
+		qns[i] = int(qnCtr.Add(1))
+		w := q.wire()
+		srcA := netip.MustParseAddr("127.0.0.1")
+		if src != "" {
+			srcA, _ = netip.ParseAddr(src)
+		}
+		in.tr.Emit("cl.send", "qn", qns[i], "lst", lst, "src", addrJS(srcA), "id", int(q.id), "qr", q.qr, "opcode", q.opcode, "rd", q.rd,
+			"nq", q.nq, "name", labelsJS(q.name), "cls", int(q.cls), "typ", int(q.typ), "opt", q.opt, "optsize", int(q.effSize()), "optopts", q.optopts, "len", len(w), "mayrefuse", false)
+		f := make([]byte, 2+len(w))
+		binary.BigEndian.PutUint16(f, uint16(len(w)))
+		copy(f[2:], w)
+		stream = append(stream, f...)
+		byID[q.id] = i
+	}
+	got := make([]bool, len(qs))
+	fail := func(e string) {
+		for i := range qs {
+			if !got[i] {
+				in.tr.Emit("cl.none", "qn", qns[i], "lst", lst, "http", 0, "err", e)
+			}
+		}
+	}
+	d := net.Dialer{LocalAddr: localTCP(src), Timeout: 3 * time.Second}
+	c, err := d.Dial("tcp", fmt.Sprintf("127.0.0.1:%d", in.ports[lst]))
+	if err != nil {
+		fail(err.Error())
+		return
+	}
+	defer c.Close()
+	if lst == "tls" {
+		tc := tls.Client(c, &tls.Config{InsecureSkipVerify: true})
+		if err := tc.Handshake(); err != nil {
+			fail(err.Error())
+			return
+		}
+		c = tc
+	}
+	c.Write(stream)
+	c.SetReadDeadline(time.Now().Add(wait))
+	for n := 0; n < len(qs); n++ {
+		h := make([]byte, 2)
+		if _, err := io.ReadFull(c, h); err != nil {
+			fail(err.Error())
+			return
+		}
+		b := make([]byte, binary.BigEndian.Uint16(h))
+		if _, err := io.ReadFull(c, b); err != nil {
+			fail(err.Error())
+			return
+		}
+		i, ok := -1, false
+		if len(b) >= 2 {
+			i, ok = byID[binary.BigEndian.Uint16(b)], true
+			if _, known := byID[binary.BigEndian.Uint16(b)]; !known {
+				ok = false
+			}
+		}
+		if !ok || got[i] {
+			// a response nobody asked for (or a second one): attributed to the first unanswered query so that
+			// the specification sees it (wrong ID / wrong question / more than one response)
+			for k := range qs {
+				if !got[k] || k == len(qs)-1 {
+					i = k
+					break
+				}
+			}
+		}
+		got[i] = true
+		in.logRecv(qns[i], lst, 0, b)
+	}
+}
+
 // sendMay is send for a client that may legitimately be refused at connection level (limiter)
 func (in *inst) sendMay(lst, src string, q qspec, wait time.Duration) {
 	mayRefuse = true
@@ -534,12 +620,16 @@ func (in *inst) roundTrip(lst, src string, w []byte, wait time.Duration, hdr map
 	addr := fmt.Sprintf("127.0.0.1:%d", port)
 	deadline := time.Now().Add(wait)
 	switch lst {
-	case "udp":
+	case "udp", "udpmr":
 		var la *net.UDPAddr
-		if src != "" {
+		if src != "" && lst == "udp" {
 			la = &net.UDPAddr{IP: net.ParseIP(src)}
 		}
-		c, err := net.DialUDP("udp", la, &net.UDPAddr{IP: net.IPv4(127, 0, 0, 1), Port: port})
+		dst := net.IPv4(127, 0, 0, 1)
+		if lst == "udpmr" && src != "" { // for the multi-route listener `src` names the local address the query is sent TO;
+			dst = net.ParseIP(src) //     the connected socket only accepts a reply coming from that address
+		}
+		c, err := net.DialUDP("udp", la, &net.UDPAddr{IP: dst, Port: port})
 		if err != nil {
 			return nil, 0, err
 		}
